@@ -284,7 +284,6 @@ impl ValueVisitor {
 //@@ param data : EnumAccS<'a>
 //@@ ret Result<Value, Error>
 //@@ subst `OrderedFloat::from(val)` => `of_from(val)` rule=R16
-//@@ subst `de.newtype_variant::<()>()?;` => `let _u: () = de.newtype_variant::<()>()?;` rule=R5
 //@@ spec
     ensures
         r is Ok ==> r->Ok_0 == node_of(data.field@, data.src@),       // [C03.value.node-of-announced-type] [C05.value.node-of-announced-type] the node built for a constructor is the variant the specification's table assigns to it, holding the decoded content unchanged
